@@ -111,9 +111,13 @@ def _one(ctx, text):
     try:
         r = parse_version_specifier(text)
         got = "ok"
+        if hasattr(ctx, "c17_seen") and len(ctx.c17_seen) < 600 and len(text) < 300:
+            ctx.c17_seen.append((text, ("ok", str(r))))
     except InvalidSpecifier:
         got = "invalid"
         r = None
+        if hasattr(ctx, "c17_seen") and len(ctx.c17_seen) < 600 and len(text) < 300:
+            ctx.c17_seen.append((text, ("InvalidSpecifier", "")))
     except Exception as e:  # noqa: BLE001
         got = f"raised {type(e).__name__}: {str(e)[:120]}"
         r = None
@@ -146,6 +150,7 @@ def _one(ctx, text):
 
 def run(ctx):
     rnd = ctx.rnd
+    ctx.c17_seen = []
     n = 6000 if ctx.tier == "quick" else 80000
     fixed = ["", "<empty>", " ", ">=1.0 , <2", "==1!0.*", "~=1!0.1", "~=1.0c1", "~=1.0.rev1", "~=v1.1", "~=1.0-rc.1",
              "!=1!2.3.*", "~=2!1.2.3", "==01.02.*", "~=1.0.0.0.0", "==1.0alpha1", "<=1.0-1", ">=1.0||<0.5", "<empty>||>=1",
@@ -196,6 +201,20 @@ def run(ctx):
                     ctx.shape("union")
             if len(ctx.samples) < 8 and i % 500 == 7:
                 ctx.sample({"text": text, "valid_for_packaging": valid})
+    # strings parsed earlier are parsed again at the end, in reverse order: same acceptance, equal result
+    from dep_logic.specifiers import parse_version_specifier
+
+    for text, first in reversed(ctx.c17_seen[:600]):
+        bump("reparse")
+        try:
+            again = parse_version_specifier(text)
+            outcome = ("ok", str(again))
+        except Exception as e:  # noqa: BLE001
+            outcome = (type(e).__name__, "")
+        if outcome != first:
+            violation(PROP, "parse_version_specifier", "parsing the same string again gives a different outcome",
+                      {"text": text[:200], "first": list(first), "second": list(outcome), "group": "repeat"},
+                      case={"kind": "text", "text": text})
     ctx.current_case = None
 
 
